@@ -8,7 +8,7 @@
 (* on time only through `now - t >= TO`), which makes the state space       *)
 (* finite.                                                                  *)
 (***************************************************************************)
-EXTENDS PollingScanner, PnScanner, TLC, Json
+EXTENDS PollRun, PnScanner, TLC, Json
 
 CONSTANTS V,        \* abstract value bytes
           ExtraCns, \* non-contributing controller numbers fed as well
